@@ -1,92 +1,92 @@
 import Pymc.Proofs.PooledInv
 /-!
-# Sequential pool: what one `call` does to a state satisfying `Inv`
+# Sequential pool: what one `callT` does to a state satisfying `Inv`
 -/
 namespace Pooled
 
 /-- facts about one call from an `Inv` state that hold for every body -/
-theorem call_facts {cfg : Cfg} {s : St} (now : Nat) (b : Body) (h : Inv s) :
-    (∃ l, (call cfg s now b).1.closed = s.closed ++ l) ∧
-    s.nextConn ≤ (call cfg s now b).1.nextConn ∧
-    (∀ k, (call cfg s now b).2.io = some k → k ∉ s.closed) ∧
-    (∀ k, (call cfg s now b).2.io = some k → b ≠ .ok → k ∈ (call cfg s now b).1.closed) ∧
+theorem callT_facts {cfg : Cfg} {s : St} (now fin : Nat) (b : Body) (h : Inv s) :
+    (∃ l, (callT cfg s now fin b).1.closed = s.closed ++ l) ∧
+    s.nextConn ≤ (callT cfg s now fin b).1.nextConn ∧
+    (∀ k, (callT cfg s now fin b).2.io = some k → k ∉ s.closed) ∧
+    (∀ k, (callT cfg s now fin b).2.io = some k → b ≠ .ok → k ∈ (callT cfg s now fin b).1.closed) ∧
     (∀ c k, b = .rejected → (get cfg s now).2 = some c → c.conn = some k →
-      k ∈ (call cfg s now b).1.closed) ∧
-    (∀ c ∈ (call cfg s now b).1.free, c.lastUsed = clock cfg now) ∧
-    (cfg.maxSize ≠ 0 → (get cfg s now).2.isSome ∧ (call cfg s now b).2.client.isSome) ∧
-    (∀ k, b = .ok → (call cfg s now b).2.io = some k →
-      ∃ id, (call cfg s now b).2.client = some id ∧
-        (call cfg s now b).1.free = [⟨id, some k, clock cfg now⟩]) := by
+      k ∈ (callT cfg s now fin b).1.closed) ∧
+    (∀ c ∈ (callT cfg s now fin b).1.free, c.lastUsed = clock cfg fin) ∧
+    (cfg.maxSize ≠ 0 → (get cfg s now).2.isSome ∧ (callT cfg s now fin b).2.client.isSome) ∧
+    (∀ k, b = .ok → (callT cfg s now fin b).2.io = some k →
+      ∃ id, (callT cfg s now fin b).2.client = some id ∧
+        (callT cfg s now fin b).1.free = [⟨id, some k, clock cfg fin⟩]) := by
   rcases h.shape with ⟨nc, nn, cl, rfl⟩ | ⟨c, nc, nn, cl, rfl⟩
   · obtain ⟨-, -, h3, h4, -, h6, -, -⟩ := h
     simp only at h3 h4 h6
     by_cases hm : cfg.maxSize = 0
-    · simp [call, get_nil, hm]
-    · simp only [call, get_nil, hm, if_false]
+    · simp [callT, get_nil, hm]
+    · simp only [callT, get_nil, hm, if_false]
       rcases b with _ | (_|_) | (_|_) | _ | _ | (_|_) <;> simp [release, destroy, isUsed, dropUsed, connList]
       all_goals (first | (simp_all; done) | (simp_all; grind) | grind)
   · obtain ⟨-, -, h3, h4, h5, h6, h7, h8⟩ := h
     simp only at h3 h4 h5 h6 h7 h8
     obtain ⟨id, conn, lu⟩ := c
     by_cases hf : clock cfg now - lu ≤ cfg.idleTimeout
-    · simp only [call, get_one, hf, if_true]
+    · simp only [callT, get_one, hf, if_true]
       rcases b with _ | (_|_) | (_|_) | _ | _ | (_|_) <;> rcases conn with _ | k <;>
         simp [release, destroy, isUsed, dropUsed, connList]
       all_goals (first | (simp_all; done) | (simp_all; grind) | grind)
     · by_cases hm : cfg.maxSize = 0
-      · simp [call, get_one, hm, hf]
-      · simp only [call, get_one, hm, hf, if_false]
+      · simp [callT, get_one, hm, hf]
+      · simp only [callT, get_one, hm, hf, if_false]
         rcases b with _ | (_|_) | (_|_) | _ | _ | (_|_) <;> rcases conn with _ | k <;>
           simp [release, destroy, isUsed, dropUsed, connList]
         all_goals (first | (simp_all; done) | (simp_all; grind) | grind)
 
 /-- a fresh-enough free client is reused: same client, same connection, nothing allocated -/
-theorem call_reuse {cfg : Cfg} {s : St} (now : Nat) (b : Body) (h : Inv s) {id k lu : Nat}
+theorem callT_reuse {cfg : Cfg} {s : St} (now fin : Nat) (b : Body) (h : Inv s) {id k lu : Nat}
     (hfree : s.free = [⟨id, some k, lu⟩]) (hfresh : clock cfg now - lu ≤ cfg.idleTimeout) :
     (get cfg s now).2 = some ⟨id, some k, lu⟩ ∧
-    (call cfg s now b).2.client = some id ∧
-    (b ≠ .rejected → (call cfg s now b).2.io = some k) ∧
-    (b = .rejected → (call cfg s now b).2.io = none) ∧
-    (call cfg s now b).1.nextConn = s.nextConn ∧
-    (call cfg s now b).1.nextClient = s.nextClient ∧
+    (callT cfg s now fin b).2.client = some id ∧
+    (b ≠ .rejected → (callT cfg s now fin b).2.io = some k) ∧
+    (b = .rejected → (callT cfg s now fin b).2.io = none) ∧
+    (callT cfg s now fin b).1.nextConn = s.nextConn ∧
+    (callT cfg s now fin b).1.nextClient = s.nextClient ∧
     (get cfg s now).1.closed = s.closed := by
   rcases h.shape with ⟨nc, nn, cl, rfl⟩ | ⟨c, nc, nn, cl, rfl⟩
   · simp at hfree
   · simp only [List.cons.injEq, and_true] at hfree
     subst hfree
-    simp only [call, get_one, hfresh, if_true]
+    simp only [callT, get_one, hfresh, if_true]
     rcases b with _ | (_|_) | (_|_) | _ | _ | (_|_) <;>
       simp [release, destroy, isUsed, dropUsed, connList]
 
 /-- an idle-expired free client is closed by `get`, and the call is served by a new client which
 holds no connection yet -/
-theorem call_expire {cfg : Cfg} {s : St} (now : Nat) (b : Body) (h : Inv s) {id k lu : Nat}
+theorem callT_expire {cfg : Cfg} {s : St} (now fin : Nat) (b : Body) (h : Inv s) {id k lu : Nat}
     (hfree : s.free = [⟨id, some k, lu⟩]) (hexp : ¬ clock cfg now - lu ≤ cfg.idleTimeout) :
     (get cfg s now).1.closed = s.closed ++ [k] ∧
     (get cfg s now).1.free = [] ∧
-    k ∈ (call cfg s now b).1.closed ∧
-    (call cfg s now b).2.io ≠ some k ∧
+    k ∈ (callT cfg s now fin b).1.closed ∧
+    (callT cfg s now fin b).2.io ≠ some k ∧
     (cfg.maxSize ≠ 0 →
       (get cfg s now).2 = some ⟨s.nextClient, none, clock cfg now⟩ ∧
-      (call cfg s now b).2.client = some s.nextClient ∧
+      (callT cfg s now fin b).2.client = some s.nextClient ∧
       ((b = .ok ∨ b = .quitOk ∨ b = .fail true ∨ b = .failSwallowed true ∨ b = .quitFail true) →
-        (call cfg s now b).2.io = some s.nextConn ∧ (call cfg s now b).1.nextConn = s.nextConn + 1) ∧
+        (callT cfg s now fin b).2.io = some s.nextConn ∧ (callT cfg s now fin b).1.nextConn = s.nextConn + 1) ∧
       ((b = .rejected ∨ b = .fail false ∨ b = .failSwallowed false ∨ b = .quitFail false) →
-        (call cfg s now b).2.io = none ∧ (call cfg s now b).1.nextConn = s.nextConn)) := by
+        (callT cfg s now fin b).2.io = none ∧ (callT cfg s now fin b).1.nextConn = s.nextConn)) := by
   rcases h.shape with ⟨nc, nn, cl, rfl⟩ | ⟨c, nc, nn, cl, rfl⟩
   · simp at hfree
   · simp only [List.cons.injEq, and_true] at hfree
     subst hfree
     have hk : k < nn := h.free_conn_lt _ (List.mem_singleton.mpr rfl) k rfl
     by_cases hm : cfg.maxSize = 0
-    · simp [call, get_one, hm, hexp, connList]
-    · simp only [call, get_one, hm, hexp, if_false]
+    · simp [callT, get_one, hm, hexp, connList]
+    · simp only [callT, get_one, hm, hexp, if_false]
       rcases b with _ | (_|_) | (_|_) | _ | _ | (_|_) <;>
         simp [release, destroy, isUsed, dropUsed, connList] <;> omega
 
 /-- a `rejected` body never touches a connection -/
-theorem call_rejected_io (cfg : Cfg) (s : St) (now : Nat) : (call cfg s now .rejected).2.io = none := by
-  unfold call
+theorem callT_rejected_io (cfg : Cfg) (s : St) (now fin : Nat) : (callT cfg s now fin .rejected).2.io = none := by
+  unfold callT
   split <;> rfl
 
 theorem clock_fresh {cfg : Cfg} {t1 t2 : Nat} (h : cfg.idleTimeout = 0 ∨ t2 - t1 ≤ cfg.idleTimeout) :
